@@ -525,13 +525,24 @@ func c03cls(c *an.Ctx) {
 		c.OK(cls, "CLS starts the close", cls.Pos(), "")
 	}
 	// StartClose: SetReadyCount(0) and store stateClosing on every path
+	readyF := c.P.Field("nsqd", "clientV2", "ReadyCount")
 	zero := func(in ssa.Instruction) bool {
 		ci, ok := in.(ssa.CallInstruction)
-		if !ok || !an.IsCallTo(ci, set) {
+		if !ok {
 			return false
 		}
-		k, isC := an.ConstInt(arg(ci, 0))
-		return isC && k == 0
+		if an.IsCallTo(ci, set) {
+			k, isC := an.ConstInt(arg(ci, 0))
+			return isC && k == 0
+		}
+		// SetReadyCount(0) written out: an atomic store/swap of 0 into ReadyCount
+		if call, isCall := in.(*ssa.Call); isCall && (an.StdCallee(call, "sync/atomic", "SwapInt64") || an.StdCallee(call, "sync/atomic", "StoreInt64")) {
+			if fa, isFA := call.Call.Args[0].(*ssa.FieldAddr); isFA && an.FieldOf(fa) == readyF {
+				k, isC := an.ConstInt(call.Call.Args[1])
+				return isC && k == 0
+			}
+		}
+		return false
 	}
 	storeClosing := func(in ssa.Instruction) bool {
 		call, ok := in.(*ssa.Call)
